@@ -85,6 +85,7 @@ func main() {
 	repo := flag.String("repo", "/repo", "repository root")
 	verif := flag.String("verif", "", "verif root (default: parent of the executable's directory)")
 	list := flag.Bool("list", false, "list obligations")
+	listProps := flag.Bool("listprops", false, "list the properties that have a decided-clause summary")
 	flag.Parse()
 
 	if *verif == "" {
@@ -110,6 +111,15 @@ func main() {
 		seed, _ = strconv.Atoi(s)
 	}
 
+	if *listProps {
+		var ids []string
+		for id := range rules.Properties {
+			ids = append(ids, id)
+		}
+		sort.Strings(ids)
+		fmt.Println(strings.Join(ids, " "))
+		return
+	}
 	if *list {
 		for _, o := range rules.All() {
 			fmt.Printf("%-8s %-28s %-20s %s\n", o.ID, o.Template, strings.Join(o.Props, ","), o.Desc)
